@@ -522,7 +522,7 @@ fn zz64(n: i64) -> u64 {
     ((n << 1) ^ (n >> 63)) as u64
 }
 
-fn put_key(out: &mut Vec<u8>, number: u32, wire: u8) {
+pub fn put_key(out: &mut Vec<u8>, number: u32, wire: u8) {
     put_varint(out, ((number as u64) << 3) | wire as u64);
 }
 
